@@ -64,15 +64,14 @@ func (a *Aggregate) Aggregate(message string) error {
 		set.Samples += samples
 	}
 
-	// Merge data from group into global group.
-	isMerged, err := a.globalGroup.MergeNoblock(a.query, a.group)
-	if err != nil {
+	// Merge data from group into global group. Merge blocking: a skipped merge
+	// would only be made up for by the next message of this server, and after
+	// the last message there is none.
+	if err := a.globalGroup.Merge(a.query, a.group); err != nil {
 		panic(err)
 	}
-	if isMerged {
-		// Re-init local group (make it empty again).
-		a.group.InitSet()
-	}
+	// Re-init local group (make it empty again).
+	a.group.InitSet()
 	return nil
 }
 
